@@ -3,7 +3,7 @@ families x content path x damage sets), three oracles."""
 import itertools
 import os
 
-from mc import core, e1, tf, world
+from mc import core, e1, e2, fsshim, tf, world
 from mc.ref import bencode, model
 
 REAL_B = e1.REAL_B
@@ -162,6 +162,10 @@ class RecheckCheck:
             "self-checked by the reference verifier (100% on intact content)",
             "content parent directory never carries the torrent's own name "
             "(it does contain siblings whose names extend the torrent name)",
+            "environment faults during a recheck of damaged content (a file "
+            "that cannot be opened, a failing read, a progress line that "
+            "cannot be written; one per execution): an answer that comes back "
+            "must still be below 100 and exact",
             "one Checker object is asked twice, before and after the content "
             "is repaired (real scale, first damage of each kind per world): "
             "the second answer must be the intact one",
@@ -260,9 +264,84 @@ class RecheckCheck:
                            "shape": sh, "alpha": [1, 16385],
                            "first": g["first"], "seed": seed, "tier": tier,
                            "maxdmg": 1})
+        # environment faults during a recheck of damaged content (E2, one
+        # fault per execution): an answer that comes back must still be right
+        for fam in ("own-v1", "own-v2", "own-hybrid", "ref-V1-bep47"):
+            gs.append({"kind": "iofault", "family": fam, "seed": seed,
+                       "tier": tier})
         return gs
 
     # ------------------------------------------------------------------
+    def run_iofault(self, g):
+        res = core.Result()
+        seed, fam = g["seed"], g["family"]
+        P = 32768
+        w = {"scale": "R", "B": REAL_B, "P": P, "shape": "D3",
+             "sizes": [P + 1, 5, 2 * P]}
+        files, parent, root, metas = self.setup_world(w, seed, [fam])
+        mpath, meta = metas[fam]
+        dmg = (("flip", 2, P + 7),)
+        changed = apply_damage(files, dmg)
+        self.write_state(root, files, changed)
+        disk = self.disk_of(files, changed)
+        want, _v, _t = model.recheck_model(meta, disk, REAL_B)
+
+        class FaultyOut:
+            def __init__(self, run):
+                self.run = run
+
+            def write(self, text):
+                if self.run.choose(2, "stdout-write") == 1:
+                    raise BlockingIOError(11, "Resource temporarily "
+                                              "unavailable")
+                return len(text)
+
+            def flush(self):
+                pass
+
+        def one(run):
+            import sys
+            so, se = sys.stdout, sys.stderr
+            shim = fsshim.FsShim(run, parent, fault_reads=True,
+                                 read_faults=True, crashes=False)
+            try:
+                sys.stdout = FaultyOut(run)
+                sys.stderr = tf.NULL
+                with shim:
+                    c = tf.recheck.Checker(mpath, root)
+                    return ("pct", float(c.results()))
+            except BaseException as e:  # noqa
+                return ("raised:" + type(e).__name__, None)
+            finally:
+                sys.stdout, sys.stderr = so, se
+
+        ex = e2.Explorer(1, max_runs=20000)
+        for run, (kind, val) in ex.explore(one):
+            res.states += 1
+            res.transitions += 1
+            res.evals += 1
+            res.validated += 1
+            dev = [lab for c, (n, lab) in zip(run.choices, run.points) if c]
+            what = dev[0].split(":")[0] if dev else "no-fault"
+            prob = None
+            if kind == "pct":
+                if val >= 100 and self.id == "C04":
+                    prob = "damaged-reported-100"
+                elif abs(val - want) > 1e-9 and self.id == "C16" and \
+                        fam not in PADDED_V1:
+                    prob = "percentage-differs"
+            res.outcomes[f"iofault:{what}/{kind.split(':')[0]}/"
+                         f"{prob or 'ok'}"] += 1
+            if prob:
+                res.violation(
+                    f"{self.id}|{fam}|{prob}|after-fault:{what}",
+                    {"kind": "iofault", "family": fam, "seed": seed,
+                     "vector": [[c, list(pt)] for c, pt in
+                                zip(run.choices, run.points)]},
+                    {"reported": val, "reference": want})
+        res.sample({"kind": "iofault", "family": fam, "runs": ex.runs})
+        return res
+
     def setup_world(self, w, seed, fams):
         """Materialise the world and one metafile per family."""
         B, P = w["B"], w["P"]
@@ -523,6 +602,8 @@ class RecheckCheck:
         return found
 
     def run_group(self, g):
+        if g.get("kind") == "iofault":
+            return self.run_iofault(g)
         res = core.Result()
         seed = g["seed"]
         fams = families(g["tier"], world.nfiles(g["shape"]))
@@ -591,6 +672,12 @@ class RecheckCheck:
         return res
 
     def replay(self, case):
+        if case.get("kind") == "iofault":
+            r = self.run_iofault({"family": case["family"],
+                                  "seed": case["seed"], "tier": "quick"})
+            return [{"sig": v["sig"], "detail": v["detail"]}
+                    for v in r.violations
+                    if v["case"]["vector"] == case["vector"]]
         res = core.Result()
         dmg = tuple(tuple(d) for d in case["damage"])
         found = self.explore_world(case["world"], case["seed"],
